@@ -56,7 +56,7 @@ func c20(c *Ctx) {
 	o := c.Out
 	o.WriteFile("Tab.v", commonTab(c))
 	o.Stage("Tab.v")
-	o.Oblig("Tab.pass_order_ok", "Tab.info_constants_ok")
+	o.Oblig("Tab.info_constants_ok")
 
 	// cross-check: the run-time dump equals the syntactic reading of reg/x86.go, in order
 	src := astRegs(c.Repo)
